@@ -22,13 +22,13 @@ package martian
 //@ func (*Proxy).traceReadRequest
 //@ trusted
 //@ modifies *, nRead()
-//@ preserves http.Response.StatusCode http.Response.Close http.Response.Request http.Request.Method http.Request.Close http.Response.Header http.Request.Header http.Request.URL http.Request.Body http.Response.Body proxyConn.* Proxy.* bufio.ReadWriter.*
+//@ preserves http.Response.StatusCode http.Response.Close http.Response.Request http.Request.Method http.Request.Close http.Response.Header http.Request.Header http.Request.URL http.Request.Body http.Response.Body proxyConn.* Proxy.* bufio.ReadWriter.* http.Request.ProtoMajor http.Request.ProtoMinor http.Response.ProtoMajor http.Response.ProtoMinor http.Response.ContentLength http.Response.TransferEncoding
 //@ ensures nRead() == old(nRead()) + 1
 
 //@ func (*Proxy).traceWroteResponse
 //@ trusted
 //@ modifies *, nWrote(), wroteStatus()
-//@ preserves http.Response.StatusCode http.Response.Close http.Response.Request http.Request.Method http.Request.Close http.Response.Header http.Request.Header http.Request.URL http.Request.Body http.Response.Body proxyConn.* Proxy.* bufio.ReadWriter.* maps(http.Header)
+//@ preserves http.Response.StatusCode http.Response.Close http.Response.Request http.Request.Method http.Request.Close http.Response.Header http.Request.Header http.Request.URL http.Request.Body http.Response.Body proxyConn.* Proxy.* bufio.ReadWriter.* maps(http.Header) http.Request.ProtoMajor http.Request.ProtoMinor http.Response.ProtoMajor http.Response.ProtoMinor http.Response.ContentLength http.Response.TransferEncoding
 //@ ensures nWrote() == old(nWrote()) + 1
 //@ ensures res != nil ==> wroteStatus() == old(res.StatusCode)
 
@@ -231,6 +231,11 @@ package martian
 //@ ensures result == (res.Request.Method == "HEAD" || res.StatusCode / 100 == 1 || res.StatusCode == 204 || res.StatusCode == 304)
 
 // chunk iff HTTP/1.1, unknown length and a body is allowed.
+//@ func (*http.Request).ProtoAtLeast
+//@ trusted
+//@ pure
+//@ ensures result == (r.ProtoMajor > major || (r.ProtoMajor == major && r.ProtoMinor >= minor))
+
 //@ func shouldChunk
 //@ property C02
 //@ requires res != nil && res.Request != nil
@@ -266,16 +271,25 @@ package martian
 //@ func (net.Conn).SetWriteDeadline, isTextEventStream, newPatternFlushWriter, (*proxyConn).writeResponse$1, ContextDuration, (io.Closer).Close, (io.ReadCloser).Close, (io.ReadWriteCloser).Close
 //@ trusted
 //@ modifies *
-//@ preserves http.Response.StatusCode http.Response.Close http.Response.Request http.Request.Method http.Request.Close http.Response.Header http.Request.Header http.Request.URL http.Request.Body http.Response.Body proxyConn.* Proxy.* bufio.ReadWriter.* maps(http.Header)
+//@ preserves http.Response.StatusCode http.Response.Close http.Response.Request http.Request.Method http.Request.Close http.Response.Header http.Request.Header http.Request.URL http.Request.Body http.Response.Body proxyConn.* Proxy.* bufio.ReadWriter.* maps(http.Header) http.Request.ProtoMajor http.Request.ProtoMinor http.Response.ProtoMajor http.Response.ProtoMinor http.Response.ContentLength http.Response.TransferEncoding
 
 // The writers of the response head and body: a failure is remembered (C12:
 // after a failed write nothing more is sent on the connection).
 //@ ghost ivar wErr() bool
-//@ func (*bufio.ReadWriter).Flush, (*bufio.Writer).Flush, (*http.Response).Write, writeConnectOKResponse, writeHeaderOnlyResponse
+//@ func (*bufio.ReadWriter).Flush, (*bufio.Writer).Flush, writeConnectOKResponse, writeHeaderOnlyResponse
 //@ trusted
 //@ modifies *, wErr()
-//@ preserves http.Response.StatusCode http.Response.Close http.Response.Request http.Request.Method http.Request.Close http.Response.Header http.Request.Header http.Request.URL http.Request.Body http.Response.Body proxyConn.* Proxy.* bufio.ReadWriter.* maps(http.Header)
+//@ preserves http.Response.StatusCode http.Response.Close http.Response.Request http.Request.Method http.Request.Close http.Response.Header http.Request.Header http.Request.URL http.Request.Body http.Response.Body proxyConn.* Proxy.* bufio.ReadWriter.* maps(http.Header) http.Request.ProtoMajor http.Request.ProtoMinor http.Response.ProtoMajor http.Response.ProtoMinor http.Response.ContentLength http.Response.TransferEncoding
 //@ ensures wErr() == (old(wErr()) || result != nil)
+
+// (serialisation by net/http: chunked iff the response says so at that moment)
+//@ ghost ivar wroteTE() int
+//@ func (*http.Response).Write as (r *http.Response, w io.Writer) (result error)
+//@ trusted
+//@ modifies *, wErr(), wroteTE()
+//@ preserves http.Response.StatusCode http.Response.Close http.Response.Request http.Request.Method http.Request.Close http.Response.Header http.Request.Header http.Request.URL http.Request.Body http.Response.Body proxyConn.* Proxy.* bufio.ReadWriter.* maps(http.Header) http.Request.ProtoMajor http.Request.ProtoMinor http.Response.ProtoMajor http.Response.ProtoMinor http.Response.ContentLength http.Response.TransferEncoding
+//@ ensures wErr() == (old(wErr()) || result != nil)
+//@ ensures wroteTE() == old(len(r.TransferEncoding))
 
 //@ pred deferredReport(method string, status int) = (method == "CONNECT" && status / 100 == 2) || (method != "CONNECT" && status == 101)
 
@@ -287,7 +301,7 @@ package martian
 //@ property C13 C02 C11 C04 C12
 //@ ghostset wrotePA() := old(hasPA(res.Header))
 //@ requires p != nil && p.Proxy != nil && p.conn != nil && p.brw != nil && p.brw.Writer != nil && res != nil && res.Request != nil && res.Header != nil
-//@ modifies *, nWrote(), wroteStatus(), sawClosing(), wrotePA(), wErr()
+//@ modifies *, nWrote(), wroteStatus(), sawClosing(), wrotePA(), wErr(), wroteTE()
 //@ preserves proxyConn.Proxy proxyConn.brw proxyConn.conn Proxy.* bufio.ReadWriter.* http.Response.StatusCode http.Response.Request http.Request.Method
 //@ ensures nWrote() == old(nWrote()) || nWrote() == old(nWrote()) + 1
 //@ ensures !deferredReport(old(res.Request.Method), old(res.StatusCode)) ==> nWrote() == old(nWrote()) + 1 && wroteStatus() == old(res.StatusCode)
@@ -302,6 +316,9 @@ package martian
 //@ ensures old(res.Close) && !deferredReport(old(res.Request.Method), old(res.StatusCode)) ==> result != nil && res.Close
 //@ ensures result == nil ==> !res.Close || deferredReport(old(res.Request.Method), old(res.StatusCode))
 //@ ensures res.Close ==> ("Connection" in res.Header)
+// C02: an HTTP/1.0 client is never sent the chunked transfer coding: a body of
+// unknown length is delimited by closing the connection.
+//@ ensures old(res.Request.ProtoMajor < 1 || (res.Request.ProtoMajor == 1 && res.Request.ProtoMinor < 1)) && old(res.Request.Method) != "CONNECT" && old(res.ProtoMajor == 1 && res.ProtoMinor == 1 && res.ContentLength == -1 && !(res.Request.Method == "HEAD" || res.StatusCode / 100 == 1 || res.StatusCode == 204 || res.StatusCode == 304)) ==> res.Close && result != nil && (wroteTE() == 0 || wroteTE() == old(wroteTE()))
 // C12: a failed write closes the connection - nothing follows a truncated response.
 //@ ensures result == nil || result == errClose
 //@ ensures wErr() && !old(wErr()) ==> result == errClose
